@@ -25,6 +25,10 @@ class C18(TieCheck):
         "errors are compared by kind (sentinel + which message), not by text",
     ]
 
+    def harness_args(self, tier):
+        # thorough: many small shards keep each coqc under ~1 GB (16 run at a time)
+        return ["tier=" + tier] + (["shards=64"] if tier == "thorough" else [])
+
     def gen(self, tier):
         """Tie A: regenerate coq/C18/GenRanges.v from $VERIF_REPO/clientip/clientip.go."""
         hb, lg = lib.build_harness("c18gen")
